@@ -13,7 +13,7 @@ RULE = (
     "explicit topology, UGRID dataset, MPAS, Exodus, face vertices) x output format {ugrid, exodus, scrip} x {direct "
     "dataset, NetCDF file} x {to_xarray, encode_as} x a seeded subset of derived quantities materialised first (edges, "
     "face_edge, node_face, face_face, centres, areas, bounds, distances, trees, hole edges) x a prefix of 0..3 "
-    "encodings of OTHER grids (larger with edges / smaller without) in the same process. Oracle: re-opened faces equal "
+    "encodings of OTHER grids (larger with edges / smaller without) in the same process x 0..2 earlier encodings of the SAME grid object in any format. Oracle: re-opened faces equal "
     "the generator's mesh (sequence for ugrid/scrip, multiset for exodus); every name in the UGRID topology metadata "
     "exists; the dataset can be written to NetCDF. Non-trivial = mixed face sizes, or a non-empty materialised set, or "
     "a non-empty prefix."
@@ -36,6 +36,7 @@ def cases(tier, seed):
                "api": "encode_as" if rng.random() < 0.2 else "to_xarray", "source": SOURCES[int(rng.integers(0, len(SOURCES)))],
                "materialise": [MATERIALISE[int(j)] for j in rng.choice(len(MATERIALISE), size=k, replace=False)] if k else [],
                "prefix": [{"mesh": gen.random_mesh(rng, 40), "fmt": FORMATS[int(rng.integers(0, 3))], "edges": bool(rng.random() < 0.6)} for _ in range(int(rng.integers(0, 4)))],
+               "same_grid_before": [FORMATS[int(j)] for j in rng.integers(0, 3, size=int(rng.integers(0, 3)))] if rng.random() < 0.5 else [],
                "dseed": int(rng.integers(0, 10**6))}
 
 
@@ -161,7 +162,17 @@ def run_case(ctx, case):
             done.append(name)
         except Exception as e:
             ctx.observe("materialise_raised:%s:%s" % (name, core.exc_sig(e)))
-    sigm = dict(sig, materialised=bool(done), prefix=bool(case["prefix"]))
+    # earlier encodings of this same grid object in other (or the same) formats: exporting must not alter the grid
+    before = []
+    for f0 in case.get("same_grid_before", []):
+        if f0 == "exodus" and max(len(f) for f in m.faces) > 8:
+            continue
+        try:
+            encode(g, f0, "to_xarray")
+            before.append(f0)
+        except Exception as e:
+            ctx.check("no_exception", False, dict(sig, stage="earlier_encode_same_grid", earlier=f0, exc=core.exc_sig(e)), {"exc": repr(e)[:300], "mesh": case["mesh"]})
+    sigm = dict(sig, materialised=bool(done), prefix=bool(case["prefix"]), same_grid_before="+".join(before))
     try:
         ds = encode(g, case["fmt"], case["api"])
     except Exception as e:
@@ -198,8 +209,11 @@ def run_case(ctx, case):
             os.remove(path)
         except OSError:
             pass
-    if mixed or done or case["prefix"]:
+    if mixed or done or case["prefix"] or before:
         ctx.mark_nontrivial()
+    if before:
+        ctx.observe("with_earlier_encodings_of_same_grid")
+        ctx.note_set("same_grid_format_sequences", "+".join(before) + ">" + case["fmt"])
     ctx.observe("fmt_" + case["fmt"])
     ctx.observe("source_" + case["source"])
     if mixed:
@@ -208,4 +222,4 @@ def run_case(ctx, case):
         ctx.observe("with_prefix")
     for name in done:
         ctx.observe("materialised_" + name)
-    ctx.sample({"mesh": case["mesh"], "fmt": case["fmt"], "api": case["api"], "source": case["source"], "materialise": case["materialise"], "prefix": [[p["fmt"], p["edges"]] for p in case["prefix"]], "via_file": case["via_file"]})
+    ctx.sample({"mesh": case["mesh"], "fmt": case["fmt"], "api": case["api"], "source": case["source"], "materialise": case["materialise"], "prefix": [[p["fmt"], p["edges"]] for p in case["prefix"]], "via_file": case["via_file"], "same_grid_before": before})
